@@ -4,7 +4,7 @@ use verif_common::Rng;
 pub const C01_RULE: &str = "one scenario per tamper kind (honest advance, unsigned extra ref, moved ref, deleted signed ref, \
 corrupted signature, re-keyed signature, sigrefs naming another repository's identity root, server behind, diverged, unloadable \
 sigrefs commit, sigrefs ref missing, unsigned/moved/diverged namespace rad/id, rad/id without sigrefs for an unknown namespace, dropped \
-rad/ ref, new namespace, honestly deleted ref) x victim kind (delegate / non-delegate) x (pull / clone) x announced refs_at \
+rad/ ref, new namespace, honestly deleted or rewound ref) x victim kind (delegate / non-delegate) x (pull / clone) x announced refs_at \
 (none / current tip / older tip / forged commit / blocked or own key / duplicate key), plus random combinations of two tampered \
 namespaces, scopes, block lists, delegate sets, reversed ls-refs order and references listed twice; executed on real git repositories through a real `git upload-pack`; \
 non-trivial = some namespace was tampered or changed; distinct by scenario text";
@@ -67,6 +67,7 @@ pub fn tamper_kinds(k: usize, j: usize, d0: usize) -> Vec<(&'static str, String,
         ("new-namespace", format!("L.rmns.{k};S.commit.{k}.master;S.resign.{k}"), false),
         ("ref-deleted-honestly", format!("B.commit.{k}.feature;B.resign.{k};S.del.{k}.feature;S.resign.{k}"), true),
         ("radid-moved-signed", format!("S.commit.{k}.id;S.resign.{k}"), false),
+        ("ref-rewound-honestly", format!("B.commit.{k}.feature;B.commit.{k}.feature;B.resign.{k};S.back.{k}.feature;S.resign.{k}"), true),
         ("radid-diverged", format!("S.commit.{k}.master;S.resign.{k};S.set.{k}.id.{k}.master"), false),
     ]
 }
